@@ -34,6 +34,8 @@ class Trunc (K : Type) where
 /-- exact value of a finite scalar (what `ostream <<` formats) -/
 class Exact (K : Type) where
   toRat? : K → Option Rat
+  /-- the IEEE value `-0.0` (printed as `-0`); never true for an exact field -/
+  negZero : K → Bool
 
 /-- `M_PI` as written in <cmath> (21 significant digits; rounds to 0x400921FB54442D18) -/
 def floatPi : Float := OfScientific.ofScientific 314159265358979323846 true 20
@@ -53,6 +55,7 @@ instance : Trunc Float where
 
 instance : Exact Float where
   toRat? := fun x => Proto.ratOfBits x.toBits
+  negZero := fun x => x.toBits == 0x8000000000000000
 
 /-- truncation toward zero on `Rat` -/
 def ratTrunc (q : Rat) : Int := if q < 0 then -((-q).floor) else q.floor
@@ -62,6 +65,7 @@ instance : Trunc Rat where
 
 instance : Exact Rat where
   toRat? := fun q => some q
+  negZero := fun _ => false
 
 namespace Scalar
 variable {K : Type} [Scalar K]
